@@ -14,6 +14,8 @@ package main
 //   EB|ER peer peer ...      ExpireBodies / ExpireReceipts with these peers overdue
 //   V peer                   Revoke
 //   X                        Results(false)
+//   Z seed n origin mode emptyPct   new sync cycle on the SAME queue object (Close, Reset, peers reset, Prepare) with a new
+//                            origin and a new (unrelated/forked) header chain derived from these parameters
 //   HB|HR peer               honest answer: deliver exactly the bodies of the peer's pending request (resolved at run time)
 
 import (
@@ -222,6 +224,7 @@ type execT struct {
 	lastReq     map[string][]int
 	prevReq     map[string][]int
 	nOps        int
+	epochs      int
 	faults      map[string]int
 	dist        map[string]int
 }
@@ -538,6 +541,32 @@ func (e *execT) do(op string) (fl *failure) {
 			e.dist["revoke"]++
 			goOut = "ok"
 			leanLine = fmt.Sprintf("V %%d %s", f[1])
+		case "Z":
+			v := make([]uint64, 5)
+			for i := range v {
+				if i+1 < len(f) {
+					v[i], _ = strconv.ParseUint(f[i+1], 10, 64)
+				}
+			}
+			if v[1] == 0 {
+				v[1] = 1
+			}
+			if v[3] < 1 || v[3] > 3 {
+				v[3] = 1
+			}
+			e.p.seed, e.p.n, e.p.origin, e.p.mode, e.p.emptyPct = v[0], int(v[1]), v[2], int(v[3]), int(v[4])
+			e.u = buildUniverse(e.p)
+			e.accepted, e.returned, e.linkChecked, e.goFailed = nil, nil, 0, false
+			e.lastReq, e.prevReq = map[string][]int{}, map[string][]int{}
+			e.vq.Reset(e.p.origin, downloader.SyncMode(e.p.mode))
+			e.dist["reset-new-cycle"]++
+			e.epochs++
+			goOut = "ok"
+			fz := 0
+			if e.p.fast() {
+				fz = 1
+			}
+			leanLine = fmt.Sprintf("Z %%d %d %d", e.p.origin, fz)
 		case "X":
 			newResults = e.vq.Results()
 			var parts []string
